@@ -398,7 +398,7 @@ func runC18(k int, rng *Rng) CaseResult {
 		return CaseResult{Inconclusive: "harness: cannot copy golden: " + err.Error()}
 	}
 	w := NewWorld("C18", rng, cfg, root)
-	w.predict, w.storeWant = true, true
+	w.predict, w.storeWant = true, false
 	defer w.Cleanup()
 	// the model is the manifest
 	for _, u := range man.Order {
